@@ -21,6 +21,7 @@ def plan_items(tier, seed, d3_mod_quick=64, groups_thorough=True):
     items += [("wrap1", w) for w in A.WRAPPERS]
     items += [("objcore", t, r) for t in (0, 1) for r in range(5)]
     items += [("wrapobj", w) for w in A.WRAPPERS]
+    items += [("objcomp",)]
     items += [("core", "numeric", k, 8) for k in range(8)] + [("core", "string", k, 4) for k in range(4)]
     if tier != "quick":
         items += [("core", "array", k, 64) for k in range(64)] + [("core", "composition", k, 64) for k in range(64)]
@@ -87,6 +88,33 @@ def expand(item):
                     if len(st) <= 3 and not typed:
                         pass  # also covered by d2/d3 slices; harmless duplicate
                     yield ("s",) + st, A.schema_of(st), VAL.V, len(st)
+    elif kind == "objcomp":
+        # object schemas that the parser visits twice (type lists, sibling composition keywords) with renamed and
+        # required properties: what the second pass sees are attribute names, not JSON names
+        import copy as _copy
+
+        props = [
+            {"class": {"type": "integer"}},
+            {"a b": {"type": "integer"}, "c": {"type": "string"}},
+            {"class": {"type": "integer", "default": 1}, "a": {}},
+            {"a": {"type": "integer"}},
+        ]
+        reqs = [["class"], ["a b"], ["a"], ["class", "c"], []]
+        types = [{"type": "object", "title": "Obj"}, {"type": ["object"], "title": "Obj"}, {"type": ["object", "null"], "title": "Obj"}, {"type": ["array", "object"], "title": "Obj"}, {}]
+        comps = [{}, {"anyOf": [True]}, {"not": False}, {"allOf": [{}, {"minProperties": 0}]}, {"oneOf": [{"maxProperties": 5}]}, {"anyOf": [{"required": ["zz"]}, {}], "not": {"required": ["nope"]}}]
+        extras = [{}, {"additionalProperties": False}, {"patternProperties": {"^c": {"type": "integer"}}}]
+        vals = [{}, {"class": 1}, {"a b": 1}, {"class": "x"}, {"a": 1}, {"class": 1, "c": "s"}, {"a b": 1, "c": "s", "zz": 0}, {"class_": 1}, {"a_b": 1}, None, 1, [], {"class": 1, "a": 2, "extra": 3}, {"c": 1}]
+        n = 0
+        for t in types:
+            for p_ in props:
+                for r in reqs:
+                    if not all(name in p_ or True for name in r):
+                        continue
+                    for c in comps:
+                        for e in extras:
+                            n += 1
+                            schema = _copy.deepcopy({**t, "properties": p_, **({"required": r} if r else {}), **c, **e})
+                            yield ("objcomp", n), schema, vals, len(schema)
     elif kind == "wrapobj":
         # equally titled object classes with DIFFERENT contents under one wrapper, one after the other in one process
         # (anything keyed on a class name / repr instead of the class itself shows up here)
